@@ -249,6 +249,17 @@ func (m *Machine) nondetIntrinsic(name string, args []Val) (Val, bool) {
 		return nil, true
 	case "VerifShared":
 		f := args[0]
+		// package-level state of the code under test is shared by all goroutines too
+		for _, mem := range m.eng.pkg.Members {
+			g, ok := mem.(*ssa.Global)
+			if !ok || strings.HasPrefix(g.Name(), "init$") {
+				continue
+			}
+			if fn := m.eng.prog.Fset.Position(g.Pos()).Filename; strings.Contains(fn, "zz_verif_") {
+				continue
+			}
+			m.freeze(m.global(g))
+		}
 		m.quietFS = true // steps of the two runs are not part of the compared trace
 		r0 := m.callValue(f, []Val{goInt(0)})
 		r1 := m.callValue(f, []Val{goInt(1)})
